@@ -980,6 +980,46 @@ def generate(repo):
     w(";\n".join(items))
     w("].")
     w("")
+    # impls of traits that are declared inside a private INLINE module (the sealing pattern)
+    private_inline = set((m.parent + "::" if m.parent else "") + m.name for m in out["mods"] if m.inline and m.vis != "pub")
+    hidden = {}
+    for t in out["traits"]:
+        if any(t.mod == pm or t.mod.startswith(pm + "::") for pm in private_inline):
+            hidden.setdefault(t.name, []).append((t.mod + "::" if t.mod else "") + t.name)
+
+    def form(a, im):
+        if a[0] == "path" and len(a[1]) == 1 and not a[3] and a[1][0] in im.tys:
+            return "FParam %s" % coq_str(a[1][0])
+        if a[0] == "path":
+            scope = Decl()
+            scope.mod = im.mod
+            d = tr.r.find(a[1], im.mod, tr.r.by_full, tr.r.by_simple)
+            if d is not None:
+                return "FApp %s true" % coq_str(d.full)
+            return "FApp %s false" % coq_str("::".join(a[1]))
+        return "FOther %s" % coq_str(ast_text(a))
+
+    w("(* every impl of a trait declared in a private inline module (sealing traits): its type parameters,")
+    w("   Self form, the trait's explicit arguments (none = the default, Self) and its where-clauses *)")
+    w("Definition sealed_impls : list trait_impl := [")
+    items = []
+    for im in out["impls"]:
+        if im.trait is None or im.trait[0] != "path" or im.trait[1][-1] not in hidden:
+            continue
+        cands = hidden[im.trait[1][-1]]
+        full = next((c for c in cands if c == (im.mod + "::" if im.mod else "") + im.trait[1][-1]), cands[0])
+        args = [x for x in im.trait[3] if x[0] != "const"]
+        wh = []
+        for lhs, bs in sorted(im.bounds.items()):
+            for b in bs:
+                wh.append("(%s, %s)" % (coq_str(lhs), coq_str(b)))
+        items.append("  (* %s:%d *)\n  {| ti_trait := %s; ti_mod := %s; ti_params := [%s]; ti_self := %s;\n     ti_args := [%s];\n     ti_where := [%s] |}"
+                     % (os.path.relpath(im.file, repo), im.line, coq_str(full), coq_str(im.mod),
+                        "; ".join(coq_str(x) for x in im.tys), form(im.target, im),
+                        "; ".join(form(x, im) for x in args), "; ".join(wh)))
+    w(";\n".join(items))
+    w("].")
+    w("")
     w("(* what the translator could not read (must be empty for the types C20 names) *)")
     w("Definition translator_errors : list str := [%s]." % "; ".join(coq_str(e.replace(repo, "")) for e in out["errors"]))
     w("Definition translator_unresolved : list str := [%s]." % "; ".join(coq_str(e) for e in sorted(set(tr.unresolved))))
